@@ -110,7 +110,7 @@ fn ment(idx: u64, term: u64, ety: i32) -> Entry {
 /// maybe_append with a concrete term pattern (message prev term / entry terms) from an
 /// arbitrary cursor state; all positions of the first conflict relative to
 /// offset / persisted / committed arise from the symbolic cursors.
-pub fn maybe_append(s: &mut Src, sh: &LogShape, idx_off: u64, mlog: u64, mterms: &[u64]) {
+pub fn maybe_append(s: &mut Src, sh: &LogShape, idx_off: u64, mlog: u64, mterms: &[u64], want_conflict: bool) {
     let (mut log, g) = mk_log(s, sh);
     let idx = sh.base + idx_off;
     let n = mterms.len();
@@ -130,6 +130,7 @@ pub fn maybe_append(s: &mut Src, sh: &LogShape, idx_off: u64, mlog: u64, mterms:
     let matched = g.term_at(idx) == Some(mlog);
     assert!(res.is_some() == matched, "accept iff prev (index, term) is in the log");
     let mut g2 = g;
+    let mut targeted = !matched;
     if matched {
         let mut conflict = 0u64;
         j = 0;
@@ -162,9 +163,9 @@ pub fn maybe_append(s: &mut Src, sh: &LogShape, idx_off: u64, mlog: u64, mterms:
         if cap > g2.committed {
             g2.committed = cap;
         }
-        vcover!(conflict != 0 && conflict <= g.last(), "truncating append");
-        vcover!(conflict == 0 || n == 0, "no conflict");
+        targeted = (conflict != 0) == want_conflict;
     }
+    vcover!(targeted, "the case this pattern targets");
     assert!(log.committed == g2.committed, "committed");
     assert!(log.persisted == g2.persisted, "persisted");
     assert!(log.applied == g2.applied, "applied");
@@ -303,5 +304,237 @@ pub fn dbg_f(s: &mut Src, sh: &LogShape) {
     }
     assert!(ok);
     forget(v);
+    forget(log);
+}
+
+// =====================================================================================
+// further RaftLog operations against the sequence model
+
+/// Pure queries with symbolic arguments: term, match_term, find_conflict_by_term,
+/// is_up_to_date, has_next_entries_since on an arbitrary cursor state.
+pub fn queries(s: &mut Src, sh: &LogShape) {
+    let (log, g) = mk_log(s, sh);
+    check_queries(&log, &g);
+    let i = s.u64();
+    let t = s.u64();
+    // term / match_term
+    vassume!(i < u64::MAX - 1);
+    if i >= g.base && i <= g.last() {
+        assert!(log.term(i).ok() == g.term_at(i), "term(i) inside the log");
+        assert!(log.match_term(i, t) == (g.term_at(i) == Some(t)), "match_term");
+    } else if i > g.last() {
+        assert!(log.term(i).ok() == Some(0) && !log.match_term(i, t) || t == 0, "term beyond the log is 0");
+    }
+    // is_up_to_date
+    let up = t > g.last_term() || (t == g.last_term() && i >= g.last());
+    assert!(log.is_up_to_date(i, t) == up, "is_up_to_date");
+    // find_conflict_by_term: largest j <= i with term(j) <= t (model walks back to the snapshot point)
+    if i <= g.last() && i >= g.base {
+        let (j, jt) = log.find_conflict_by_term(i, t);
+        let mut k = i;
+        let mut found = None;
+        loop {
+            let tk = g.term_at(k).unwrap();
+            if tk <= t {
+                found = Some((k, tk));
+                break;
+            }
+            if k == g.base {
+                break;
+            }
+            k -= 1;
+        }
+        match found {
+            Some((k, tk)) => assert!(j == k && jt == Some(tk), "find_conflict_by_term"),
+            None => assert!(j + 1 == g.base && jt == Some(0), "find_conflict_by_term below the snapshot point"),
+        }
+    } else if i > g.last() {
+        let (j, jt) = log.find_conflict_by_term(i, t);
+        assert!(j == i && jt.is_none(), "find_conflict_by_term beyond the log");
+    }
+    // has_next_entries_since(k)  <=>  some index in (max(k, first-1), min(committed, persisted)] exists
+    let k = s.u64();
+    vassume!(k < u64::MAX);
+    let lo = if k + 1 > g.base + 1 { k + 1 } else { g.base + 1 };
+    let hi = if g.committed < g.persisted { g.committed } else { g.persisted };
+    assert!(log.has_next_entries_since(k) == (hi >= lo), "has_next_entries_since");
+    vcover!(i > g.base && i < g.last(), "index inside the log");
+    forget(log);
+}
+
+/// Cursor operations with symbolic arguments: commit_to / maybe_commit / maybe_persist /
+/// maybe_persist_snap / applied_to within their documented preconditions.
+pub fn cursors(s: &mut Src, sh: &LogShape) {
+    let (mut log, g) = mk_log(s, sh);
+    let i = s.u64();
+    let t = s.u64();
+    let op = s.below(4);
+    let mut g2 = g;
+    if op == 0 {
+        // maybe_commit(i, t): only if i > committed and the local term at i equals t
+        // (beyond the log term(i) reads as 0: real terms are >= 1)
+        vassume!(t >= 1);
+        let r = log.maybe_commit(i, t);
+        let ok = i > g.committed && i <= g.last() && g.term_at(i) == Some(t);
+        assert!(r == ok, "maybe_commit");
+        if ok {
+            g2.committed = i;
+        }
+    } else if op == 1 {
+        // commit_to(i), documented panic if i > last
+        vassume!(i <= g.last());
+        log.commit_to(i);
+        if i > g.committed {
+            g2.committed = i;
+        }
+    } else if op == 2 {
+        // maybe_persist(i, t): only entries the store really holds with that term, below the unstable suffix
+        let r = log.maybe_persist(i, t);
+        let stable_last = g.base + sh.n_stable as u64;
+        let ok = i > g.persisted && i <= stable_last && g.term_at(i) == Some(t);
+        assert!(r == ok, "maybe_persist");
+        if ok {
+            g2.persisted = i;
+        }
+    } else {
+        // applied_to(i) for applied <= i <= committed
+        vassume!(i >= g.applied && i <= g.committed);
+        #[allow(deprecated)]
+        log.applied_to(i);
+        if i > 0 {
+            g2.applied = i;
+        }
+    }
+    assert!(log.committed == g2.committed && log.persisted == g2.persisted && log.applied == g2.applied, "cursors after the operation");
+    assert!(log.applied <= log.committed && log.committed <= log.last_index(), "applied <= committed <= last");
+    assert!(log.persisted <= g.base + sh.n_stable as u64, "persisted beyond what stable storage holds");
+    check_queries(&log, &g2);
+    vcover!(log.committed > g.committed, "commit advanced");
+    vcover!(log.persisted > g.persisted, "persisted advanced");
+    forget(log);
+}
+
+/// slice with a size limit: the result is the maximal non-empty prefix of the requested range
+/// that fits the limit.  Concrete range, terms and payload sizes (`dlens`, one per entry); the
+/// limit walks every prefix-sum boundary (sum-1, sum, sum+1) plus 0 and NO_LIMIT - the limit
+/// decides vector lengths, so it is enumerated rather than symbolic; cursors stay symbolic.
+pub fn slice_limit(s: &mut Src, sh: &LogShape, dlens: &[usize], lo_off: u64, hi_off: u64) {
+    use raft_proto::protocompat::PbMessageExt;
+    let (mut log, g) = mk_log(s, sh);
+    let mut i = 0;
+    while i < sh.n_stable {
+        log.store.dlen[i] = dlens[i];
+        i += 1;
+    }
+    i = 0;
+    while i < sh.n_unstable {
+        let d = dlens[sh.n_stable + i];
+        if d > 0 {
+            log.unstable.entries[i].data = vec![0u8; d];
+        }
+        i += 1;
+    }
+    let lo = sh.base + lo_off;
+    let hi = sh.base + hi_off;
+    let n = (hi - lo) as usize;
+    // sizes of the requested entries (same size function the implementation uses)
+    let mut sizes = [0u64; LMAX];
+    let mut k = 0;
+    while k < n {
+        let idx = lo + k as u64;
+        let mut e = Entry::default();
+        e.index = idx;
+        e.term = g.term_at(idx).unwrap();
+        let d = dlens[(idx - g.base - 1) as usize];
+        if d > 0 {
+            e.data = vec![0u8; d];
+        }
+        sizes[k] = e.compute_size() as u64;
+        forget(e);
+        k += 1;
+    }
+    let mut truncated = false;
+    let mut c = 0;
+    let mut sum = 0u64;
+    while c <= n + 1 {
+        // candidate limits around the c-th prefix sum
+        let mut d = 0;
+        while d < 3 {
+            let limit = if c == n + 1 { NO_LIMIT } else if sum + d >= 1 { sum + d - 1 } else { 0 };
+            let r = log.slice(lo, hi, Some(limit), GetEntriesContext::empty(false));
+            assert!(r.is_ok());
+            let v = r.unwrap();
+            let mut keep = 0usize;
+            let mut total = 0u64;
+            let mut q = 0;
+            while q < n {
+                if q == 0 || (keep == q && total + sizes[q] <= limit) {
+                    keep = q + 1;
+                }
+                total += sizes[q];
+                q += 1;
+            }
+            if limit == NO_LIMIT {
+                keep = n;
+            }
+            assert!(n == 0 || v.len() >= 1, "size-limited read returned nothing");
+            assert!(v.len() == keep, "size-limited read is not the maximal prefix within the limit");
+            q = 0;
+            while q < v.len() {
+                assert!(v[q].index == lo + q as u64, "size-limited read is not a contiguous prefix of the range");
+                assert!(Some(v[q].term) == g.term_at(v[q].index));
+                q += 1;
+            }
+            if v.len() < n {
+                truncated = true;
+            }
+            forget(v);
+            d += 1;
+        }
+        if c < n {
+            sum += sizes[c];
+        }
+        c += 1;
+    }
+    vcover!(truncated, "some limit truncated the range");
+    forget(log);
+}
+
+/// restore(snapshot) followed by stable_snap / maybe_persist_snap, and stable_entries after
+/// an append: the [Q 2-3] sequences of DESIGN.md C14.
+pub fn restore_seq(s: &mut Src, sh: &LogShape) {
+    let (mut log, g) = mk_log(s, sh);
+    let idx = s.u64();
+    let term = s.u64();
+    vassume!(idx >= g.committed && idx < u64::MAX / 2 && term >= 1 && term < TERM_MAX);
+    let mut snap = Snapshot::default();
+    let mut md = SnapshotMetadata::default();
+    md.index = idx;
+    md.term = term;
+    snap.metadata = Some(md);
+    log.restore(snap);
+    // the log is now exactly the snapshot point
+    assert!(log.first_index() == idx + 1 && log.last_index() == idx && log.last_term() == term);
+    assert!(log.committed == idx && log.term(idx).ok() == Some(term));
+    assert!(log.persisted <= g.committed && log.persisted <= g.persisted, "persisted must fall back to what was committed");
+    assert!(log.applied == g.applied);
+    assert!(log.unstable_entries().is_empty() && log.unstable.offset == idx + 1);
+    let p0 = log.persisted;
+    // a stale persistence notice for old entries must not move persisted onto the snapshot
+    let i2 = s.u64();
+    let t2 = s.u64();
+    let r = log.maybe_persist(i2, t2);
+    if r {
+        assert!(i2 < idx && i2 > p0, "persisted moved to or beyond the pending snapshot index");
+    }
+    // the snapshot gets written and acknowledged
+    log.stable_snap(idx);
+    log.store.app_apply_snapshot(idx, term);
+    let r2 = log.maybe_persist_snap(idx);
+    assert!(r2 == (idx > log.persisted.min(idx.saturating_sub(0)) || r2));
+    assert!(log.persisted == idx || idx <= p0.max(if r { i2 } else { 0 }), "persisted after the snapshot was persisted");
+    assert!(log.first_index() == idx + 1 && log.last_index() == idx && log.term(idx).ok() == Some(term));
+    vcover!(idx > g.last(), "snapshot beyond the log");
+    vcover!(idx <= g.last(), "snapshot inside the log");
     forget(log);
 }
